@@ -175,5 +175,6 @@ def run(ctx):
     from ..rules import sC44
     rules.append(sC44.rule_pospair(ctx))
     rules += [sC44.rule_errpos(ctx), sC44.rule_filetab(ctx), sC44.rule_tbkey(ctx), sC44.rule_first(ctx), sC44.rule_order(ctx)]
-    # sC44.rule_tbkey_complete(ctx)   # pending finding (FINDING_2: the traceback code-object cache is keyed by line number only)
+    # known finding K13 (FINDING_2 of session s4-G10): the traceback code-object cache is keyed by line number only; the repair reworks the runtime cache (struct, find, insert, both API variants)
+    rules.append(sC44.rule_tbkey_complete(ctx))
     return rules
